@@ -144,14 +144,34 @@ impl Monitor for C04 {
         cfg.no_nullable_quant = true;
         let common = common_cfg(&alpha);
         let extra = ['a', 'b', '\u{10400}', '\u{301}', '\n', ' '];
+        // brackets, parentheses and the backslash as literals (the text of the pattern is re-scanned
+        // by analyze for its group-nesting table) together with groups that may capture nothing
+        let mut meta = GenCfg::std(&['a', 'b', ']', '[', '(', ')', '\\', '-', 'a', '1']);
+        meta.backrefs = false;
+        // loops whose body ends in a quantified group, followed by '$' under flag m
+        let mut loops = GenCfg::std(&['a', 'b', '\n', 'x', 'a']);
+        loops.backrefs = false;
+        loops.quant_pct = 60;
         for k in 0..n {
             let xsd = k % 3 == 2;
             let line = k % 12 == 1;
-            let ast = if xsd { gen_pattern(&mut rng, &common) } else if line { gen_line_shape(&mut rng, &['a', 'b', '#']) } else { gen_pattern(&mut rng, &cfg) };
+            let metas = k % 12 == 4;
+            let eol = k % 12 == 7;
+            let ast = if xsd {
+                gen_pattern(&mut rng, &common)
+            } else if line {
+                gen_line_shape(&mut rng, &['a', 'b', '#'])
+            } else if metas {
+                gen_pattern(&mut rng, &meta)
+            } else if eol {
+                Node::Cat(vec![gen_pattern(&mut rng, &loops), Node::Eol]).normalize()
+            } else {
+                gen_pattern(&mut rng, &cfg)
+            };
             if ast.nullable() {
                 continue;
             }
-            let fl = if line { *rng.pick(&["m", "ms"]) } else { *rng.pick(&["", "", "i", "s", "m"]) };
+            let fl = if line { *rng.pick(&["m", "ms"]) } else if eol { "m" } else { *rng.pick(&["", "", "i", "s", "m"]) };
             for j in 0..3 {
                 let mut inp = gen_input(&mut rng, &ast, &extra, 8);
                 if j == 2 {
@@ -216,6 +236,9 @@ impl Monitor for C16 {
             };
         }
         obs.count(if nullable { "oracle_nullable" } else { "oracle_not_nullable" });
+        if c.dialect == Dialect::Xsd {
+            obs.count(if nullable { "xsd_oracle_nullable" } else { "xsd_oracle_not_nullable" });
+        }
         let rep = call!(engine::spans_via_replace(&re, s), "replace_all");
         let an = call!(engine::analyze(&re, s), "analyze");
         let tk = call!(engine::tokenize(&re, s), "tokenize");
@@ -308,6 +331,49 @@ impl Monitor for C16 {
             }
         }
         desc.set("random_patterns_this_shard", J::u(n));
+        // (d) the XSD dialect, where ^ and $ are ordinary characters: 'a*$' does not match the empty
+        // string there. Generated with placeholders and rewritten in the text, because the renderer
+        // would escape them
+        let nx = w.share(30_000, 600_000);
+        let mut cx = GenCfg::std(&['a', 'b', 'X', 'Y', 'X']);
+        cx.anchors = false;
+        cx.backrefs = false;
+        cx.reluctant = false;
+        cx.ncgroups = false;
+        cx.classes = false;
+        cx.props = false;
+        cx.quant_pct = 60;
+        cx.max_top = 3;
+        fn subst(n: &Node) -> Node {
+            match n {
+                Node::Char('X') => Node::Char('$'),
+                Node::Char('Y') => Node::Char('^'),
+                Node::Group(b) => Node::Group(Box::new(subst(b))),
+                Node::NcGroup(b) => Node::NcGroup(Box::new(subst(b))),
+                Node::Cat(v) => Node::Cat(v.iter().map(subst).collect()),
+                Node::Alt(v) => Node::Alt(v.iter().map(subst).collect()),
+                Node::Repeat { body, min, max, greedy, spell } => Node::Repeat { body: Box::new(subst(body)), min: *min, max: *max, greedy: *greedy, spell: *spell },
+                o => o.clone(),
+            }
+        }
+        for _ in 0..nx {
+            let ast0 = gen_pattern(&mut rng, &cx);
+            let text = ast0.render_xsd();
+            if text.contains("(?:") || !(text.contains('X') || text.contains('Y')) {
+                continue;
+            }
+            let text = text.replace('X', "$").replace('Y', "^");
+            let ast = subst(&ast0);
+            let fl = *rng.pick(&["", "", "m", "s", "i"]);
+            for _ in 0..2 {
+                let inp = gen_input(&mut rng, &ast, &['a', 'b', '$', '^', '\n'], 6);
+                let mut c = Case::new(&ast, fl, &inp);
+                c.pattern = text.clone();
+                c.dialect = Dialect::Xsd;
+                emit(c);
+            }
+        }
+        desc.set("xsd_literal_anchor_patterns_this_shard", J::u(nx));
         // (c) literal patterns (flag q, also combined with i m s x) incl. the empty literal, and the empty pattern
         if w.shard == 0 {
             for p in ["", "a", "(", "a*", " ", "^", "$", "()", "\u{10400}"] {
@@ -356,6 +422,39 @@ impl Monitor for C13 {
             Ok(Err(e)) => return Outcome::Violated(vec![Finding::new("literal_pattern_rejected", format!("Err({})", e.name()), "every string is a valid pattern with flag q")]),
             Err(o) => return o,
         };
+        if c.aux.as_deref() == Some("self") {
+            // oracle-free identity, valid for every character whatever its case mappings: a literal
+            // matches itself, as one match covering the whole input, with or without flag i
+            if lit.is_empty() {
+                return Outcome::Inconclusive("empty_literal");
+            }
+            let got = match api(engine::is_match(&re, &c.pattern), "is_match") {
+                Ok(b) => b,
+                Err(o) => return o,
+            };
+            if !got {
+                return Outcome::Violated(vec![Finding::new("literal_does_not_match_itself", "is_match(pattern) = false".to_string(), "true")]);
+            }
+            match api(engine::analyze(&re, &c.pattern), "analyze") {
+                Ok(Ok(v)) => {
+                    let ok = v.len() == 1 && matches!(&v[0], AEntry::Match(_)) && v[0].text() == c.pattern;
+                    if !ok {
+                        return Outcome::Violated(vec![Finding::new("literal_does_not_match_itself", format!("analyze(pattern) = {:?}", v), "one match covering the whole input")]);
+                    }
+                }
+                Ok(Err(e)) => return Outcome::Violated(vec![Finding::new("literal_does_not_match_itself", format!("analyze: Err({})", e.name()), "one match covering the whole input")]),
+                Err(o) => return o,
+            }
+            // and inside a longer input it is found (where exactly may depend on case variants)
+            match api(engine::is_match(&re, &c.input), "is_match") {
+                Ok(true) => {}
+                Ok(false) => return Outcome::Violated(vec![Finding::new("literal_not_found_in_input_containing_it", "false".to_string(), "true")]),
+                Err(o) => return o,
+            }
+            obs.count("literal_self_match_checked");
+            obs.nontrivial(c.key());
+            return Outcome::Held;
+        }
         macro_rules! call {
             ($e:expr, $w:expr) => {
                 match api($e, $w) {
@@ -501,6 +600,26 @@ impl Monitor for C13 {
             emit(c);
         }
         desc.set("random_literals_this_shard", J::u(n));
+        // (c) self-match identity over letters with irregular case relations (no case model needed)
+        let ns = w.share(30_000, 600_000);
+        let irregular = super::refprops::IRREGULAR_CASE;
+        for _ in 0..ns {
+            let len = 1 + rng.below(5);
+            let lit: String = (0..len).map(|_| if rng.chance(1, 5) { *rng.pick(&alpha) } else { *rng.pick(irregular) }).collect();
+            let fl = *rng.pick(&["qi", "iq", "q", "qix", "qims"]);
+            let mut inp = String::new();
+            for _ in 0..rng.below(4) {
+                inp.push(*rng.pick(irregular));
+            }
+            inp.push_str(&lit);
+            for _ in 0..rng.below(4) {
+                inp.push(*rng.pick(irregular));
+            }
+            let mut c = Case::raw(&lit, fl, &inp);
+            c.aux = Some("self".to_string());
+            emit(c);
+        }
+        desc.set("self_match_literals_this_shard", J::u(ns));
         desc
     }
     fn corpus(&self) -> Vec<Case> {
@@ -754,6 +873,16 @@ impl Monitor for C15 {
             }
             let len = rng.below(8);
             let r: String = (0..len).map(|_| *rng.pick(&['$', '\\', '0', '1', '2', '9', 'a', '$', '1', '0', '3'])).collect();
+            if rng.chance(1, 6) && ast.count_groups() > 0 {
+                // the same pattern anchored to line starts under flag m, several lines: the groups of
+                // one line's match must not leak into the replacement of the next line's
+                let anchored = Node::Cat(vec![Node::Bol, ast.clone()]).normalize();
+                let lines: Vec<String> = (0..2 + rng.below(2)).map(|_| gen_input(&mut rng, &ast, &['a', 'b', 'c', 'x'], 5).replace('\n', "")).collect();
+                let mut c = Case::new(&anchored, "m", &lines.join("\n"));
+                c.repl = Some(r);
+                emit(c);
+                continue;
+            }
             let inp = gen_input(&mut rng, &ast, &['a', 'b', 'c', 'x'], 10);
             let mut c = Case::new(&ast, "", &inp);
             c.repl = Some(r);
